@@ -71,6 +71,20 @@ PROPS = {
              "checks": {"quick": 1200, "thorough": 50000}, "shards": {"quick": 4, "thorough": 6}},
         ],
     },
+    "C02": {
+        "level": "exploration", "sim": True,
+        "technique": "property-based testing (rapid): generated look-alike stores, stale caches and outside-writer operations interposed between individual API requests of a sync; oracle = every accepted write judged against the simulator's pre-state",
+        "level_text": "the harness owns caches and schedule: per-resource cache lag and interposed outside writers (incl. a second parent's full sync) are generated values; each accepted mutating request is judged against the live pre-state, which the stock fake clients cannot do",
+        "rule": ("rapid-generated cases: config x hook program x seeded store with look-alikes in every role (also on desired names) x optional second parent with the same selector x 2-5 syncs, each with per-resource cache lag "
+                 "and 0-3 outside operations (delete, delete+recreate unowned/foreign, controller-reference transfer, relabel, orphan, nested sync of the other parent) interposed before a chosen request; "
+                 "non-trivial = an interposed operation actually ran between two controller requests, or a child write was accepted in a store holding seeded look-alikes; distinct = distinct choice sequences"),
+        "jobs": [
+            {"name": "c02-composite", "pkg": COMPOSITE, "tests": ["TestVerifC02Composite"],
+             "checks": {"quick": 3000, "thorough": 150000}, "shards": {"quick": 6, "thorough": 8}},
+            {"name": "c02-decorator", "pkg": DECORATOR, "tests": ["TestVerifC02Decorator"],
+             "checks": {"quick": 1600, "thorough": 60000}, "shards": {"quick": 4, "thorough": 6}},
+        ],
+    },
     "C08": {
         "level": "exploration", "sim": True,
         "technique": "property-based testing (rapid): generated rollouts under a fair environment; oracle = bounded-liveness (completion within 3n+6 syncs, Updated=True, one revision left) and an independent health predicate for every RolloutWaiting",
